@@ -892,6 +892,84 @@ func runC08(c *Ctx) {
 			rec.Violate("signed-not-emitted", "resign/"+kind+"/emitted", "the emitted object does not carry the protected header that was signed last: "+hexs(out), in)
 		}
 	}
+	// ---- a received (decoded) message signed again as it is: the bytes emitted are the bytes signed ----
+	for i := 0; i < c.N(300, 6000); i++ {
+		r := mon.NewRand(uint64(c.Seed)).Sub(uint64(128500 + i))
+		a := int64(-7)
+		l := gen.RandLayer(r, gen.LayerOpts{Alg: &a, MaxProt: 4, MaxUnprot: 2, ScramblePct: 70})
+		l.ProtWidth = gen.HeadWidths[i%5]
+		in := map[string]any{"case": i, "family": "received message signed again"}
+		spy := &mon.SpySigner{Alg: cose.AlgorithmES256, Out: []byte("fresh-signature")}
+		var out []byte
+		var err error
+		idx := 1
+		switch i % 3 {
+		case 0:
+			wm := &gen.WSign1{L: l, Payload: []byte("p"), Sig: mon.FixedSig, Tagged: true}
+			var m cose.Sign1Message
+			if m.UnmarshalCBOR(wm.Bytes()) != nil {
+				continue
+			}
+			m.Signature = nil
+			if guard(rec, "Sign1Message.Sign(received)", in, func() {
+				if err = m.Sign(gen.Entropy, nil, spy); err == nil {
+					out, err = m.MarshalCBOR()
+				}
+			}) {
+				continue
+			}
+		case 1:
+			ws := &gen.WSignature{L: l, Sig: mon.FixedSig}
+			var sg cose.Signature
+			if sg.UnmarshalCBOR(ws.Bytes()) != nil {
+				continue
+			}
+			sg.Signature = nil
+			idx = 2
+			if guard(rec, "Signature.Sign(received)", in, func() {
+				if err = sg.Sign(gen.Entropy, spy, []byte{0x40}, []byte("p"), nil); err == nil {
+					out, err = sg.MarshalCBOR()
+				}
+			}) {
+				continue
+			}
+		default:
+			ws := &gen.WSignature{L: l, Sig: mon.FixedSig}
+			var cs cose.Countersignature
+			if cs.UnmarshalCBOR(ws.Bytes()) != nil {
+				continue
+			}
+			cs.Signature = nil
+			idx = 2
+			parent := &cose.Sign1Message{Headers: cose.Headers{Protected: cose.ProtectedHeader{int64(1): cose.AlgorithmES256}}, Payload: []byte("parent"), Signature: mon.FixedSig}
+			if guard(rec, "Countersignature.Sign(received)", in, func() {
+				if err = cs.Sign(gen.Entropy, spy, parent, nil); err == nil {
+					out, err = cs.MarshalCBOR()
+				}
+			}) {
+				continue
+			}
+		}
+		rec.Eval(1)
+		rec.Event("received-signed-again")
+		rec.Class(fmt.Sprintf("received-signed-again/kind=%d/protw=%d", i%3, l.ProtWidth))
+		if err != nil || spy.Calls != 1 {
+			rec.Violate("closure", "received-signed-again", fmt.Sprintf("a received message cannot be signed again and emitted: %v (signer calls %d)", err, spy.Calls), in)
+			continue
+		}
+		tbs, terr := refcbor.Parse(spy.Last())
+		on, oerr := refcbor.Parse(out)
+		if terr != nil || oerr != nil || len(tbs.Kids) <= idx {
+			continue
+		}
+		for on.Major == refcbor.Tag {
+			on = on.Kids[0]
+		}
+		if on.Major != refcbor.Array || len(on.Kids) < 3 || !bytes.Equal(on.Kids[0].Str, tbs.Kids[idx].Str) || !bytes.Equal(on.Kids[0].Str, l.Content()) {
+			rec.Violate("signed-not-emitted", "received-signed-again", fmt.Sprintf("signed protected content %s, emitted %s, received %s", hexs(tbs.Kids[idx].Str), hexs(on.Kids[0].Str), hexs(l.Content())), in)
+		}
+	}
+	rec.Require("received-signed-again", 100)
 	rec.Require("signed-edited-signed-again", 100)
 	rec.Require("signed-vs-emitted", int64(n/2))
 	rec.RequireClasses(60)
